@@ -63,3 +63,71 @@ Theorem intensity_uses_reported scale bg (s : Sums (T:=R)) :
   intensity ROps scale bg s =
   map (fun x => scale / o_shell (normalise ROps s) * x + bg) (o_f2 (normalise ROps s)).
 Proof. reflexivity. Qed.
+
+(* ---- the equality clauses ----
+   If the amplitude takes one value at every point of the mesh (a monodisperse, spherically symmetric particle: the
+   orientation quadrature samples the same number everywhere) the inequality is an equality; if it stays within eps
+   of one value (q -> 0: every amplitude tends to the contrast times the volume) the gap <F^2> - <F>^2 is at most
+   eps^2. *)
+Definition shift (c : R) (l : list pt) : list pt := map (fun p => let '(w, f, f2) := p in (w, f - c, f2)) l.
+Lemma sw_shift c l : sw (shift c l) = sw l.
+Proof. induction l as [|[[w f] f2] l IH]; simpl; [reflexivity|]. rewrite IH. reflexivity. Qed.
+Lemma swF_shift c l : swF l = swF (shift c l) + c * sw l.
+Proof. induction l as [|[[w f] f2] l IH]; simpl; [ring|]. rewrite IH. ring. Qed.
+Lemma swFF_shift c l : swFF l = swFF (shift c l) + 2 * c * swF (shift c l) + c * c * sw l.
+Proof. induction l as [|[[w f] f2] l IH]; simpl; [ring|]. rewrite IH. ring. Qed.
+Lemma gap_shift c l : sw l * swFF l - swF l * swF l = sw l * swFF (shift c l) - swF (shift c l) * swF (shift c l).
+Proof. rewrite (swF_shift c l), (swFF_shift c l). ring. Qed.
+
+Lemma swFF_small eps l : Forall (fun p => let '(w, f, _) := p in 0 <= w /\ Rabs f <= eps) l -> swFF l <= eps * eps * sw l.
+Proof.
+  induction 1 as [|[[w f] f2] l [Hw Hf] _ IH]; simpl; [lra|].
+  assert (Hff : f * f <= eps * eps).
+  { assert (He : 0 <= eps) by (eapply Rle_trans; [apply Rabs_pos | exact Hf]).
+    replace (f * f) with (Rabs f * Rabs f) by (rewrite <- Rabs_mult; apply Rabs_pos_eq; nra).
+    apply Rmult_le_compat; auto using Rabs_pos. }
+  nra.
+Qed.
+
+Theorem gap_bound c eps l :
+  Forall (fun p => let '(w, f, _) := p in 0 <= w /\ Rabs (f - c) <= eps) l -> 0 < sw l ->
+  0 <= swFF l / sw l - (swF l / sw l) * (swF l / sw l) <= eps * eps.
+Proof.
+  intros H Hp.
+  assert (Hw : Forall (fun p => let '(w, _, _) := p in 0 <= w) l).
+  { eapply Forall_impl; [|exact H]. intros [[w f] f2] [Hw _]. exact Hw. }
+  assert (Hs : Forall (fun p => let '(w, f, _) := p in 0 <= w /\ Rabs f <= eps) (shift c l)).
+  { unfold shift. rewrite Forall_map. eapply Forall_impl; [|exact H]. intros [[w f] f2] Hx. exact Hx. }
+  pose proof (cauchy_schwarz l Hw) as Hcs.
+  pose proof (swFF_small eps (shift c l) Hs) as Hsm. rewrite sw_shift in Hsm.
+  pose proof (gap_shift c l) as Hg.
+  assert (Hgap : sw l * swFF l - swF l * swF l <= eps * eps * (sw l * sw l)).
+  { rewrite Hg. pose proof (Rle_0_sqr (swF (shift c l))) as Hq. unfold Rsqr in Hq. nra. }
+  assert (Hinv : 0 < / sw l) by (apply Rinv_0_lt_compat; auto).
+  replace (swFF l / sw l - swF l / sw l * (swF l / sw l)) with ((sw l * swFF l - swF l * swF l) * (/ sw l * / sw l)) by (field; lra).
+  assert (Hpos : 0 < / sw l * / sw l) by nra.
+  split.
+  - apply Rmult_le_pos; lra.
+  - apply Rle_trans with (eps * eps * (sw l * sw l) * (/ sw l * / sw l)).
+    + apply Rmult_le_compat_r; lra.
+    + right. field. lra.
+Qed.
+
+Theorem equality_when_constant c l :
+  Forall (fun p => let '(w, f, _) := p in 0 <= w /\ f = c) l -> swF l * swF l = sw l * swFF l.
+Proof.
+  intros H.
+  assert (H0 : Forall (fun p => let '(w, f, _) := p in 0 <= w /\ Rabs (f - c) <= 0) l).
+  { eapply Forall_impl; [|exact H]. intros [[w f] f2] [Hw Hf]. split; auto. subst. rewrite Rminus_diag_eq, Rabs_R0 by reflexivity. lra. }
+  assert (Hw : Forall (fun p => let '(w, _, _) := p in 0 <= w) l).
+  { eapply Forall_impl; [|exact H]. intros [[w f] f2] [Hw _]. exact Hw. }
+  pose proof (cauchy_schwarz l Hw) as Hcs.
+  assert (Hs : Forall (fun p => let '(w, f, _) := p in 0 <= w /\ Rabs f <= 0) (shift c l)).
+  { unfold shift. rewrite Forall_map. eapply Forall_impl; [|exact H0]. intros [[w f] f2] Hx. exact Hx. }
+  pose proof (swFF_small 0 (shift c l) Hs) as Hsm.
+  pose proof (gap_shift c l) as Hg.
+  pose proof (Rle_0_sqr (swF (shift c l))) as Hq. unfold Rsqr in Hq.
+  destruct (sums_nonneg l Hw) as [HA _].
+  assert (swFF (shift c l) <= 0) by lra.
+  nra.
+Qed.
